@@ -163,3 +163,46 @@ func VHarnessC17Twin() {
 		vAssert(false, "twin")
 	}
 }
+
+// VHarnessC17Twice: a glob set's meaning depends only on its own patterns, not on what was compiled
+// before: a first list of two one-byte patterns is compiled, then a second list of one three-byte
+// pattern (and the other way round), and the second result must still be the union of ITS patterns.
+func VHarnessC17Twice() {
+	sym := func(n int, tag string) []byte {
+		g := make([]byte, n)
+		for i := range g {
+			g[i] = vNondetU8(tag)
+			// a seven-letter alphabet: this harness is about state carried between calls, not
+			// about the alphabet (which the other units cover)
+			x := g[i]
+			in := vB2I(x == 'a') | vB2I(x == ',') | vB2I(x == '*') | vB2I(x == '?') | vB2I(x == '\\') | vB2I(x == '/') | vB2I(x == '.')
+			vAssume(in == 1) // one term, no case split
+		}
+		return g
+	}
+	a, b, c := sym(1, "a"), sym(1, "b"), sym(3, "c")
+	vAssume(vClass(a[0]) == vParam("ca")) // split over workers
+	first, second := []string{string(a), string(b)}, []string{string(c)}
+	if vParam("swap") == 1 {
+		first, second = second, first
+	}
+	if _, err := CompileGlobs(first); err != nil {
+		return
+	}
+	path := sym(vParam("p"), "p")
+	var want uint8
+	for _, g := range second {
+		atoms, ok := vGlobAtoms(g)
+		if !ok {
+			return
+		}
+		want |= vRefMatch(atoms, string(path))
+	}
+	re, err := CompileGlobs(second)
+	vAssert(err == nil, "twice-second-list-compiles")
+	if err != nil {
+		return
+	}
+	vAssert(re.MatchString(string(path)) == (want == 1), "twice-second-set-means-its-own-patterns")
+	vReach("twice")
+}
